@@ -45,8 +45,8 @@ def _gen_case_a(seed: int, tier: str, index: int) -> Dict[str, Any]:
     n = rng.randint(15, 60) if tier == "quick" else rng.randint(40, 250)
     plan = []
     for _ in range(n):
-        k = rng.choices(["statp", "statp_item", "same", "aba", "refresh", "watch2", "unwatch", "rewatch", "spa_unwatch_all", "one_byte", "reentrant"],
-                        [4, 6, 2, 2, 2, 1, 1, 1, 0.5, 2, 1.5])[0]
+        k = rng.choices(["statp", "statp_item", "same", "aba", "refresh", "watch2", "unwatch", "rewatch", "spa_unwatch_all", "one_byte", "reentrant", "creep"],
+                        [4, 6, 2, 2, 2, 1, 1, 1, 0.5, 2, 1.5, 2.5])[0]
         plan.append({"op": k, "a": rng.getrandbits(30), "b": rng.getrandbits(30), "n": rng.choice([1, 1, 2, 3, 6]), "gap": rng.choice([0.0, 0.05, 0.4, 1.5])})
         if k == "reentrant":
             plan[-1]["action"] = rng.choice(["unwatch_all", "unwatch_self", "unwatch_next"])
@@ -109,6 +109,25 @@ async def scenario(world: WorldA) -> None:
                     ch.append((pos, val))
                 emit(ch)
                 res.probe("update_aimed_at_item")
+            elif k == "creep":
+                # a temperature reading creeping by one or two raw units (neighbouring readings are often the same number of tenths of a
+                # degree), in whatever unit the spa is set to; now and then the unit itself flips
+                temps = [a for a in s_accs if type(a).__name__ == "GeckoTempStructAccessor" and a.pos <= 1022]
+                if temps:
+                    a = temps[op["a"] % len(temps)]
+                    cur = struct.unpack(">H", blk[a.pos:a.pos + 2])[0]
+                    if op["b"] % 11 == 0 and "TempUnits" in model.structure.accessors:
+                        u = model.structure.accessors["TempUnits"]
+                        byte = blk[u.pos] ^ (1 << (u.bitpos or 0))
+                        p0 = min(u.pos, 1022)
+                        newb = bytearray(blk[p0:p0 + 2])
+                        newb[u.pos - p0] = byte
+                        emit([(p0, bytes(newb))])
+                        res.probe("temperature_unit_flipped")
+                    else:
+                        step = [1, -1, 2, -2, 1, 1][op["b"] % 6]
+                        emit([(a.pos, struct.pack(">H", (cur + step) & 0xFFFF))])
+                        res.probe("temperature_creeps_by_a_raw_unit")
             elif k == "one_byte":
                 a = s_accs[op["a"] % len(s_accs)]
                 model._send_structure_change = True
@@ -227,7 +246,7 @@ ASSUMPTIONS = [
     "for temperature items 'changed' means the stored word changed; the passed values are only required to differ",
     "coverage of update geometries is measured (probe table), not asserted",
 ]
-PROBES = ["refresh_judged_as_one_update", "observer_blocked_in_callback", "unwatch_from_client_thread", "unwatch_all_from_client_thread", "registration_changed_during_an_update", "several_observers_on_one_item", "reentrant_unwatch_all", "reentrant_unwatch_self", "reentrant_unwatch_next", "update_aimed_at_item", "straddling_update_notified", "silent_although_bytes_changed", "duplicate_update", "a_b_a", "watched_twice", "unwatched", "unwatch_all"]
+PROBES = ["temperature_creeps_by_a_raw_unit", "temperature_unit_flipped", "refresh_judged_as_one_update", "observer_blocked_in_callback", "unwatch_from_client_thread", "unwatch_all_from_client_thread", "registration_changed_during_an_update", "several_observers_on_one_item", "reentrant_unwatch_all", "reentrant_unwatch_self", "reentrant_unwatch_next", "update_aimed_at_item", "straddling_update_notified", "silent_although_bytes_changed", "duplicate_update", "a_b_a", "watched_twice", "unwatched", "unwatch_all"]
 N_QUICK = 1020
 
 
